@@ -116,6 +116,15 @@ def dumpMachine (m : Machine) : List String :=
     (m.outgoing k).map fun e =>
       s!"edge {Name.toString k} -> {Name.toString e.target} ev={Name.toString e.event} p={otys e.payload} g={ns e.guards} u={ns e.unl} b={ns e.before} a={ns e.after} ar={ns e.around}")
 
+/-- run-length encoding of the region tags: `MK:12` -/
+def rle (l : List String) : List String :=
+  let rec go : List String → String → Nat → List String → List String
+    | [], cur, n, acc => (if n == 0 then acc else (s!"{cur}:{n}") :: acc).reverse
+    | x :: xs, cur, n, acc =>
+      if x == cur then go xs cur (n + 1) acc
+      else go xs x 1 (if n == 0 then acc else (s!"{cur}:{n}") :: acc)
+  go l "" 0 []
+
 def processDef (id : String) (feature : Bool) (d : Def) : List String :=
   [s!"#DEF {id}"] ++
   (match parseMachine d with
@@ -129,7 +138,9 @@ def processDef (id : String) (feature : Bool) (d : Def) : List String :=
         (if m.deadPathFree then
           match m.expand feature with
           | .error e => [s!"EXPAND ERR {e.msg}"]
-          | .ok code => (render code).map fun t => s!"T {t.region} {t.text}"
+          | .ok code =>
+            let toks := render code
+            ["T\t" ++ "\t".intercalate (toks.map (·.text)), "R\t" ++ "\t".intercalate (rle (toks.map (·.region)))]
          else ["DEADPATH"]))) ++
   ["#END"]
 
